@@ -1,5 +1,6 @@
 """C07 - every connection attempt yields a well-formed, finite event sequence."""
 from __future__ import annotations
+import json
 import itertools, random
 import runner, coreutil, gen_core
 from coreutil import Scenario, events, reads
@@ -86,7 +87,7 @@ def explore(res, tier, seed, model_ok=True):
     res.rule = ('exhaustive: every sequence of <= %d server steps over a 15-symbol alphabet (good/rejecting/garbage/oversize reply, text, fragment, continuation, ping, close, invalid frame, silence, EOF, recv socket error, recv other exception, selector error) '
                 'x %d application reaction plans, always followed by EOF; random: %d histories of up to 10 steps with timers, write failures, connect failures, selector errors and random reactions; '
                 'timeouts must end the iteration also when the Close/ping write fails and when the server trickles a frame that never completes; the ping timeout also when no automatic ping can be sent (closing with the close timeout disabled, every write failing); a write fault at each write index x each kind of call at Ready x with/without negotiated compression (a blocked call is detected by a wall-clock deadline: HANG); '
-                'judged by a monitor automaton written from the property; non-trivial = history reaching Ready or containing a fault; distinct by operation line') % (depth, len(REACTION_PLANS), nrand)
+                'a read that fills the receive buffer exactly, then silence; a slow application (time passes inside a handler: longer than poll and than the timeouts) followed by silence - oracle only; judged by a monitor automaton written from the property; non-trivial = history reaching Ready or containing a fault; distinct by operation line') % (depth, len(REACTION_PLANS), nrand)
     scs = []
     base = Scenario([])
     alpha = alphabet(base)
@@ -152,6 +153,15 @@ def explore(res, tier, seed, model_ok=True):
             b = Scenario([], poll=poll, prate=2, ptimeout=pt, ctimeout=0)
             env = [('wait', 0, ('data', b.good_reply()))] + [('wait', poll, None)] * ((pt // poll) + 8)
             scs.append(Scenario(env, {}, poll=poll, prate=2, ptimeout=pt, ctimeout=0, wfail=set(range(1, 40)))); ntimeout += 1
+    # a read that fills the receive buffer EXACTLY (65536 bytes: the end of one frame), then silence: the loop must go back to the
+    # selector (a recv on the blocking socket would never return) and the timeouts must still end the iteration
+    for ct, rx in ((5, {4: [('close', 1000, ('b', b'bye'))]}), (0, {})):
+        for pt in (0, 6):
+            b = Scenario([], poll=2, prate=(2 if pt else 0), ptimeout=pt, ctimeout=ct)
+            full = server_frame(2, b'q' * (65536 - 4))
+            assert len(full) == 65536
+            env = [('wait', 0, ('data', b.good_reply())), ('wait', 1, ('data', full))] + [('wait', 2, None)] * 8 + [('wait', 1, ('eof',))]
+            scs.append(Scenario(env, dict(rx), poll=2, prate=(2 if pt else 0), ptimeout=pt, ctimeout=ct)); ntimeout += 1
     res.count('timeout_must_terminate', ntimeout)
     # a failing write at every write index, for every kind of call the application makes at Ready, with and
     # without negotiated compression (the failing call must come back, the iteration must end)
@@ -166,6 +176,28 @@ def explore(res, tier, seed, model_ok=True):
                            'close': [('wait', 0, ('data', server_frame(8, close_payload(1000, b''))))]}[after]
                     scs.append(Scenario([('wait', 0, ('data', b.good_reply(ext)))] + nxt + [('wait', 1, ('eof',))], {2: acts}, prate=0, ctimeout=5, compress=bool(ext), wfail=wf)); nwf += 1
     res.count('write_fault_at_each_call', nwf)
+    # a SLOW application: it spends longer than the poll interval (and than the timeouts) inside a handler, then the server is silent.
+    # Whatever the loop computes from the clock afterwards (a wait shorter than poll, zero, but never negative - a negative timeout
+    # makes poll(2) wait for ever), the timeouts must still end the iteration.  Oracle only (the model's applications take no time).
+    slow = []
+    for poll in (1, 5):
+        for at in (2, 3, 4):
+            for dt in (poll + 1, 3 * poll, 40):
+                for ct, pt in ((5, 0), (0, 6), (5, 6), (0, 0)):
+                    b = Scenario([], poll=poll, prate=(2 if pt else 0), ptimeout=pt, ctimeout=ct)
+                    env = [('wait', 0, ('data', b.good_reply()))] + [('wait', poll, None)] * 14 + [('wait', 1, ('eof',))]
+                    rx = {at: [('sleep', dt)]}
+                    if ct:
+                        rx[at] = [('sleep', dt), ('close', 1000, ('b', b'bye'))]
+                    slow.append(Scenario(env, rx, poll=poll, prate=(2 if pt else 0), ptimeout=pt, ctimeout=ct))
+    sjs = [coreutil.scenario_to_json(s_) for s_ in slow]
+    for js_, real_ in zip(sjs, runner.parallel_map('coreutil', 'real_one', sjs)):
+        if isinstance(real_, dict):
+            res.crashes.append(real_); continue
+        res.case(('slow', json.dumps(js_, sort_keys=True)[-160:]), nontrivial=True); res.count('slow_application_oracle_only')
+        why = monitor(real_)
+        if why:
+            res.failures.append(dict(cls='monitor', what='slow application (time passes inside a handler): ' + why, input=dict(slow=js_), scenario=js_, observed=[e[:60] for e in events(real_)][-8:]))
     pairs = coreutil.run_pairs(scs, model_ok)
     for k, (js, line, real, model) in enumerate(pairs):
         if isinstance(real, dict):
@@ -183,4 +215,7 @@ def explore(res, tier, seed, model_ok=True):
 
 
 def replay(rp):
+    if isinstance(rp.get('input'), dict) and 'slow' in rp['input']:
+        print(coreutil.real_one(rp['input']['slow'])[-2000:])
+        return 0
     return coreutil.replay_core(rp)
